@@ -22,7 +22,7 @@ impl Handshake {
         + Handshake::RESERVED_SIZE
         + Handshake::INFO_HASH_SIZE
         + Handshake::PEER_ID_SIZE) as u32;
-    const PROTOCOL_ID: &'static [u8; 19] = b"BitTorrent protocol";
+    pub const PROTOCOL_ID: &'static [u8; 19] = b"BitTorrent protocol";
     pub const ID_FROM_PROTOCOL: u8 = Handshake::PROTOCOL_ID[3];
     const LEN_SIZE: usize = 1;
     const RESERVED_SIZE: usize = 8;
